@@ -199,8 +199,8 @@ int main(int argc, char **argv) {
                 if STRKEYS {
                     if (bb == 5 && (vh_step & 2)) ok = T->putstr(T, (char *) kb, (char *) vb);
                     else if (bb == 5) ok = T->putstrf(T, (char *) kb, "%s", (char *) vb);
-                    else ok = T->put(T, (char *) kb, vn ? vb : NULL, vn);
-                } else ok = T->putobj(T, kb, kn, vn ? vb : NULL, vn);
+                    else ok = T->put(T, (char *) kb, (vn || (vh_step & 1)) ? vb : NULL, vn);        /* an empty value: NULL or a valid pointer with size 0 */
+                } else ok = T->putobj(T, kb, kn, (vn || (vh_step & 1)) ? vb : NULL, vn);
             } else if (!strcmp(op, "get")) {
                 sz = 99999;
                 if (STRKEYS && (vh_step % 5) == 0) {
